@@ -17,14 +17,16 @@ EXHAUSTIVE = {"quick": True, "thorough": True}
 SCHEMA = [Opt("i", "int", 0, 7, "w"), Opt("s", "str", 0, b"d", "w"), Opt("f", "float", 0, 1.5, "w"), Opt("b", "bool", 0, True),
           Opt("l", "int", LIST, [b"1", b"2"], "w"), Opt("sl", "str", LIST, [b"x", b"y"]), Opt("e", "int", LIST, None),
           Opt("m", "sec", MULTI | TITLE, None, "-", [Opt("x", "int", 0, 3)]),
-          Opt("one", "sec", 0, None, "-", [Opt("w", "int", 0, 1)])]
+          Opt("one", "sec", 0, None, "-", [Opt("w", "int", 0, 1)]),
+          Opt("n", "sec", MULTI, None, "-", [Opt("y", "int", 0, 4)])]
 
 # state preparations per option
 def preps(maxn):
     out = {"pristine": []}
     out["set"] = ["SI 0 %s 0 5" % hx("i"), "SS 0 %s 0 %s" % (hx("s"), hx("v")), "SF 0 %s 0 %s" % (hx("f"), dbits(2.0)), "SB 0 %s 0 0" % hx("b"),
                   "SL 0 %s 4 5 6" % hx("l"), "SL 0 %s %s" % (hx("sl"), hx("z")), "AL 0 %s 9" % hx("e"), "AT 0 %s %s" % (hx("m"), hx("a")),
-                  "AT 0 %s %s" % (hx("m"), hx("b")), "SI 0 %s 0 2" % hx("one|w")]
+                  "AT 0 %s %s" % (hx("m"), hx("b")), "SI 0 %s 0 2" % hx("one|w"),
+                  "PB 0 " + hx(b"n { y = 1 } n { y = 2 } n { y = 3 }\n")]
     out["emptied"] = ["SL 0 %s" % hx("l"), "SL 0 %s" % hx("sl"), "SS 0 %s 0 -" % hx("s")]
     out["annotated"] = ["SC 0 %s %s" % (hx(n), hx("note " + n)) for n in ("i", "s", "f", "l", "sl", "e")]
     out["annotated_set"] = out["set"] + out["annotated"]
@@ -51,6 +53,10 @@ def refusing(maxpos):
             ("rmnsec_missing", "RN 0 %s 7" % hx("m")), ("rmsec_missing", "RS 0 %s" % hx("m=zz")),
             ("setopt_bad_int", "SO 0 %s %s" % (hx("i"), hx("9x"))), ("setopt_bad_list", "SO 0 %s %s" % (hx("l"), hx("0x"))),
             ("setopt_bad_float", "SO 0 %s %s" % (hx("f"), hx("inf"))), ("setopt_bad_bool", "SO 0 %s %s" % (hx("b"), hx("maybe"))),
+            ("rmsec_idx_3", "RS 0 %s" % hx("n=3")), ("rmsec_idx_neg", "RS 0 %s" % hx("n=-1")), ("rmsec_idx_2^32", "RS 0 %s" % hx("n=4294967296")),
+            ("rmsec_idx_2^32+1", "RS 0 %s" % hx("n=4294967297")), ("rmsec_idx_hex", "RS 0 %s" % hx("n=0x100000002")),
+            ("rmsec_idx_2^64", "RS 0 %s" % hx("n=18446744073709551616")), ("rmsec_idx_junk", "RS 0 %s" % hx("n=1x")),
+            ("rmnsec_idx_3", "RN 0 %s 3" % hx("n")), ("setn_path_2^32", "SI 0 %s 0 9" % hx("n=4294967296|y")),
             ("setmulti_empty", "SM 0 %s" % hx("l")), ("setlist_nonlist", "SL 0 %s 1" % hx("i")), ("unknown_name", "SI 0 %s 0 1" % hx("zz"))]
     return ops
 
